@@ -185,7 +185,7 @@ def gen_abs(rng, allow_pseudo=True, n_max=14):
                     for _ in range(rng.randrange(1, 6))]
             ap.data.append((names[k], kind, vals))
         elif kind == "string":
-            s = "".join(rng.choice("abc XYZ09!?,;") for _ in range(rng.randrange(0, 8)))
+            s = "".join(rng.choice("abc XYZ09!?,;" + ("üé€Ω" if rng.random() < 0.15 else "")) for _ in range(rng.randrange(0, 8)))
             ap.data.append((names[k], kind, s))
         else:
             ap.data.append((names[k], kind, rng.randrange(0, 5)))
